@@ -1,13 +1,20 @@
 #!/bin/sh
 # Offline setup after a fresh restore: build the Go tools against /repo (hooks on)
-# and the Lean project (models, proofs, drivers). Nothing is fetched.
-set -e
+# and the Lean project (models, proofs, drivers). Nothing is fetched. Every step is
+# best-effort per property: each check rebuilds what it needs itself, so one
+# component that does not build can only affect its own property.
 cd "$(dirname "$0")"
 export GOFLAGS=-mod=mod GOPROXY=off GOSUMDB=off GOTOOLCHAIN=local
 mkdir -p bin work replays evidence
-( cd go && [ -f go.sum ] || cp /repo/go.sum go.sum; sh genreg.sh
-  go build -o ../bin/extract ./cmd/extract
-  for d in cmd/corr-*/; do go build -tags verif -o ../bin/$(basename $d) ./$d; done )
-./bin/extract /repo lean || true
-( cd lean && lake build DosModel $(ls Drivers/*.lean | sed 's#Drivers/\(.*\)\.lean#drv_\L\1#' | tr '\n' ' ') )
+( cd go && { [ -f go.sum ] || cp /repo/go.sum go.sum; }; sh genreg.sh
+  go build -o ../bin/extract ./cmd/extract || echo "WARN: extract does not build"
+  for d in cmd/corr-*/; do go build -tags verif -o ../bin/$(basename $d) ./$d || echo "WARN: $d does not build"; done )
+./bin/extract /repo lean || echo "WARN: some extractor failed"
+cd lean
+for m in ../meta/C*.json; do
+  id=$(basename $m .json)
+  mods=$(python3 -c "import json,sys; m=json.load(open('$m')); print(' '.join(m.get('props_modules',['DosModel.Props.$id'])))")
+  drv=drv_$(echo $id | tr 'A-Z' 'a-z')
+  flock .verif.lock lake build $mods $drv 2>&1 | tail -2 || echo "WARN: $id lean build failed"
+done
 echo setup done
